@@ -165,6 +165,13 @@ def run_mibdump(scn):
                         f.write('# previous\n' if fmt == 'pysnmp' else '{"previous": true}\n')
                     t = core.EPOCH0 - 100 + (-50 if i % 2 else 50)   # alternately older and newer than the source
                     os.utime(p, (t, t))
+        old_index = None
+        if '--build-index' in scn['flags'] and fmt == 'json' and scn['dest'] == 'populated':
+            old_index = {'compliance': {'1.3.6.1.4.1.31337.9': ['ELSEWHERE-MIB']}, 'enterprise': {'1.3.6.1.4.1.31337': ['ELSEWHERE-MIB']},
+                         'identity': {'1.3.6.1.4.1.31337': ['ELSEWHERE-MIB']}, 'meta': {}, 'oids': {'1.3.6.1.4.1.31337': ['ELSEWHERE-MIB']}}
+            with core.unhooked():
+                with open(os.path.join(dst, 'index.json'), 'w') as f:
+                    json.dump(old_index, f)
         before = core.snapshot(dst, with_mtime=False)
         argv = ['--mib-source=file://' + src, '--mib-borrower=' + bor, '--mib-searcher=nosuchpkg_sim', '--destination-directory=' + dst,
                 '--destination-format=' + fmt]
@@ -233,6 +240,17 @@ def run_mibdump(scn):
                             V('C20.2-report', 'module %s has status %s but is not listed under that category' % (m, s), what='not-listed', status=s)
                         if st != s and present and st != 'failed':
                             V('C20.2-report', 'module %s has status %s but is listed under %s' % (m, s, st), what='wrong-category', status=s, listed=st)
+            # an index built on top of an existing one keeps what that one provided (C18 through the tool)
+            if old_index is not None and not dry and not faulted and code in (0, 79):
+                raw = core.read_bytes(os.path.join(dst, 'index.json'))
+                try:
+                    now = json.loads(raw.decode()) if raw else {}
+                except ValueError:
+                    now = {}
+                lost = [sec for sec in ('identity', 'enterprise', 'compliance', 'oids')
+                        if any('ELSEWHERE-MIB' not in (now.get(sec) or {}).get(k, []) for k in old_index[sec])]
+                if lost:
+                    V('C20.7-index-kept', 'mibdump --build-index dropped the entries of a module indexed earlier (sections %s; flags %s)' % (lost, sorted(scn['flags'])), what='index-entries-lost')
             # files
             noidx = lambda snap: {k: v for k, v in snap.items() if not os.path.basename(k).startswith('index')}
             if dry:
@@ -297,8 +315,11 @@ def gen_mibcopy(rng, tier):
             files.append({'path': (d + '/' if d else '') + fn, 'module': m, 'rev': rev, 'tag': 'c%d' % k})
     if rng.random() < 0.3:
         files.append({'path': 'junk%d.txt' % k, 'garbage': True})
-    if rng.random() < 0.2:
-        files.append({'path': 'broken.mib', 'module': 'DDD-MIB', 'broken': True})
+    if rng.random() < 0.35:
+        files.append({'path': rng.choice(['broken.mib', 'a-broken', 'zz/broken.txt']), 'module': 'DDD-MIB', 'broken': rng.choice([True, 'exports', 'macro', 'choice'])})
+    for f_ in files:
+        if not f_.get('garbage') and not f_.get('broken') and rng.random() < 0.2:
+            f_['tail'] = 'comment'
     seen = set()
     files = [f for f in files if not (f['path'] in seen or seen.add(f['path']))]
     dest = {}
@@ -349,9 +370,19 @@ def run_mibcopy(scn):
                     if fdesc.get('garbage'):
                         txt = 'this is not a MIB @@@\n'
                     elif fdesc.get('broken'):
-                        txt = mod_text(fdesc['module'], None, 'broken').replace('END', '')
+                        kindb = fdesc.get('broken')
+                        if kindb == 'exports':
+                            txt = '%s DEFINITIONS ::= BEGIN\nEXPORTS a, b,\n   c\n' % fdesc['module']      # ends inside EXPORTS
+                        elif kindb == 'macro':
+                            txt = '%s DEFINITIONS ::= BEGIN\nOBJECT-TYPE MACRO ::=\nBEGIN\n  x y z\n' % fdesc['module']
+                        elif kindb == 'choice':
+                            txt = '%s DEFINITIONS ::= BEGIN\nXx ::= CHOICE {\n a INTEGER,\n' % fdesc['module']
+                        else:
+                            txt = mod_text(fdesc['module'], None, 'broken').replace('END', '')
                     else:
                         txt = mod_text(fdesc['module'], fdesc['rev'], fdesc['tag'])
+                        if fdesc.get('tail') == 'comment':
+                            txt = txt.rstrip('\n') + ' -- the end, no line break'
                     contents[fdesc['path']] = txt
                     with open(p, 'w') as f:
                         f.write(txt)
